@@ -183,11 +183,12 @@ def build_uart_tx(lo, hi, K):
 
 
 class SpiM(Mon):
-    def __init__(self, mode, dw, maxlen, maxdiv):
+    def __init__(self, mode, dw, maxlen, maxdiv, ncs=1):
         from litex.soc.cores.spi.spi_master import SPIMaster
-        self.submodules.dut = dut = SPIMaster(None, dw, 1e6, 1e6 / 4, with_csr=False, mode=mode)
+        upads = None if ncs == 1 else Record([("clk", 1), ("cs_n", ncs), ("mosi", 1), ("miso", 1)])
+        self.submodules.dut = dut = SPIMaster(upads, dw, 1e6, 1e6 / 4, with_csr=False, mode=mode)
         pads = dut.pads
-        self.free = [dut.start, dut.length, dut.mosi, pads.miso]
+        self.free = [dut.start, dut.length, dut.mosi, pads.miso] + ([dut.cs] if ncs > 1 else [])
         self.rig = [dut.clk_divider]
         busy = self.reg(1, "m_busy"); capL = self.reg(8, "capL"); capW = self.reg(dw, "capW"); edges = self.reg(5, "edges"); irqs = self.reg(2, "irqs")
         p_clk = self.reg(1, "p_clk"); p_mosi = self.reg(1, "p_mosi"); p_miso = self.reg(1, "p_miso"); ref = self.reg(dw, "ref_miso"); dur = self.reg(7, "dur")
@@ -224,7 +225,19 @@ class SpiM(Mon):
         self.comb += self.asm0.eq(1)
         # --- obligations
         self.bad_cs = Signal(name_override="bad_clock_outside_cs")
-        self.comb += self.bad_cs.eq(rise & (pads.cs_n[0] | ~busy))
+        if ncs == 1:
+            self.comb += self.bad_cs.eq(rise & (pads.cs_n[0] | ~busy))
+        else:
+            # several chip selects: software holds the selection while a transfer runs; at every clock pulse exactly the selected chips are
+            # selected (active low), the others are not
+            p_cs = self.reg(ncs, "p_cs")
+            self.sync += p_cs.eq(dut.cs)
+            hold = Signal(name_override="asm_cs_held")
+            self.comb += hold.eq(~started | ~(busy & ~finished) | (dut.cs == p_cs))
+            self.asm_cs = hold
+            want = Signal(ncs)
+            self.comb += want.eq(dut.cs ^ (2**ncs - 1))
+            self.comb += self.bad_cs.eq(rise & (~busy | (pads.cs_n != want)))
         if mode == "raw":
             bitsel = Array([capW[dw - 1 - k] for k in range(dw)])[edges]
         else:
@@ -273,13 +286,19 @@ def build_uart_tx_init():
              show=m.showl, vcycles=10)
 
 
-def build_spi(mode, dw, maxlen, maxdiv, K):
-    m = SpiM(mode, dw, maxlen, maxdiv)
+def build_spi(mode, dw, maxlen, maxdiv, K, ncs=1):
+    m = SpiM(mode, dw, maxlen, maxdiv, ncs)
     wit = dict(transfer_with_overlapping_start=m.w)
     if K >= 40:
         wit["two_transfers"] = m.w2
-    return H("spi_master_%s" % mode, m, m.free, rigid=m.rig, assume=[m.asm], bad=m.bads, witness=wit, K=K, funcs=FUNCS,
-             cfg=dict(mode=mode, data_width=dw, max_length=maxlen, max_divider=maxdiv), show=m.showl, vcycles=40, timeout_s=3000)
+    if ncs > 1:
+        w3 = Signal(name_override="w_chip1_selected_transfer")
+        sel1 = m.reg(1, "sel1_done")
+        m.sync += If(m.dut.irq & m.dut.cs[1] & ~m.dut.cs[0], sel1.eq(1))
+        m.comb += w3.eq(sel1)
+        wit = dict(transfer_on_a_chip_other_than_0=w3)
+    return H("spi_master_%s%s" % (mode, "" if ncs == 1 else "_cs%d" % ncs), m, m.free, rigid=m.rig, assume=[m.asm] + ([m.asm_cs] if ncs > 1 else []), bad=m.bads, witness=wit, K=K, funcs=FUNCS,
+             cfg=dict(mode=mode, data_width=dw, max_length=maxlen, max_divider=maxdiv, chip_selects=ncs), show=m.showl, vcycles=40, timeout_s=3000)
 
 
 class SpiS(Mon):
@@ -695,6 +714,7 @@ def jobs(tier):
     js += [Job("uart_tx", build_uart_tx, dict(lo=2**30, hi=2**31, K=38 if T else 26), cost=90 if T else 20, timeout_s=3400),
           Job("uart_tx_inductive_step", build_uart_tx_step, {}, cost=5), Job("uart_tx_invariant_initial", build_uart_tx_init, {}, cost=1),
           Job("spi_master_raw", build_spi, dict(mode="raw", dw=8, maxlen=8 if T else 4, maxdiv=4 if T else 3, K=44 if T else 30), cost=50 if T else 20, timeout_s=3400),
+          Job("spi_master_raw_cs3", build_spi, dict(mode="raw", dw=4, maxlen=2, maxdiv=2, K=20, ncs=3), cost=10, timeout_s=3400),
           Job("spi_slave", build_spi_slave, dict(dw=4, K=70 if T else 56), cost=60, timeout_s=3400),
           Job("spi_master_aligned", build_spi, dict(mode="aligned", dw=8, maxlen=8 if T else 4, maxdiv=4 if T else 3, K=44 if T else 30), cost=50 if T else 20, timeout_s=3400),
           Job("i2c_machine", build_i2c, dict(maxload=0, K=86 if T else 66), cost=60 if T else 30, timeout_s=3400),
